@@ -2,7 +2,7 @@
   ForsysModel.Model.BigEdges — model of
     virtual_edges.create_edges_new / get_partition / get_border_edge,
     BigEdge.__post_init__ (edges, own_cells, external),
-    Frame.__post_init__ (external_edges_id, internal_big_edges_vertices, internal_big_edges),
+    Frame.__post_init__ (own_cells of two-point interfaces, external_edges_id, internal_big_edges_vertices, internal_big_edges),
     Frame.get_tensions row selection, Frame.get_big_edge_by_cells.
 -/
 import ForsysModel.Model.Mesh
@@ -47,6 +47,16 @@ def cellPaths (isJ : α → Bool) (cyc : List α) : List (List α) := closeUp (c
 def dedup [DecidableEq α] (paths : List (List α)) : List (List α) :=
   paths.foldl (fun out e => if out.contains e.reverse || out.contains e then out else out ++ [e]) []
 
+/-- `are_neighbours(cell)` of `Frame.__post_init__` on the id list of the cell's vertex cycle:
+    `position = ids.index(a)`; `b in (ids[position - 1], ids[(position + 1) % len(ids)])`
+    (`ids[-1]` is the last element).  `a` absent: Python raises ValueError, the model answers `false`
+    (cannot happen for a cell listed in `a.ownCells` of a consistent mesh). -/
+def cyclicNeighbours (ids : List Id) (a b : Id) : Bool :=
+  match indexOf? a ids with
+  | none => false
+  | some pos =>
+    b == ids.getD ((pos + ids.length - 1) % ids.length) 0 || b == ids.getD ((pos + 1) % ids.length) 0
+
 namespace Mesh
 
 /-- `create_edges_new(vertices, cells)` -/
@@ -87,10 +97,22 @@ def tensionRows (m : Mesh) (earr : List (List Id)) : List Nat :=
 def bigEdgeEdges (m : Mesh) (e : List Id) : List (Option Id) :=
   (List.zip e e.tail).map fun (a, b) => (listInter (m.ownEdges a) (m.ownEdges b)).head?
 
-/-- `BigEdge.own_cells` -/
+/-- `are_neighbours(self.cells[cid])`; a cell id that is no key of the cell dictionary (KeyError in Python, impossible
+    in a consistent mesh) is not kept. -/
+def neighboursInCell (m : Mesh) (a b c : Id) : Bool :=
+  match m.cell? c with
+  | some cl => cyclicNeighbours cl.verts a b
+  | none => false
+
+/-- `BigEdge.own_cells` as a `Frame` leaves it: `BigEdge.__post_init__` takes the cells common to both ends for a
+    two-point interface (`list(set(..) & set(..))`, order of the first end's list here; Python's order is undefined)
+    and the cell list of the middle vertex otherwise; `Frame.__post_init__` then keeps, for a two-point interface
+    `[a, b]`, only the cells in whose vertex cycle `a` and `b` are cyclic neighbours (repair of finding D30:
+    both ends of the chord of a cell with two neighbours belong to three cells). -/
 def bigEdgeOwnCells (m : Mesh) (e : List Id) : List Id :=
   if e.length == 2 then
-    listInter (m.ownCells (e.getD 0 0)) (m.ownCells (e.getD 1 0))
+    (listInter (m.ownCells (e.getD 0 0)) (m.ownCells (e.getD 1 0))).filter
+      (m.neighboursInCell (e.getD 0 0) (e.getD 1 0))
   else
     m.ownCells (e.getD ((e.length - 1) / 2) 0)
 
